@@ -126,7 +126,7 @@ class World(object):
 
     def request_for(self, kind, tok):
         q = 'v=' + tok
-        h = {'X-Tok': tok}
+        h = {'X-Tok': tok, 'Host': tok + '.example'}       # every request names its own host
         if kind == 'star':
             return ('/docs', 'GET', q, h)
         if kind == 'e404h':
